@@ -4,6 +4,7 @@ import DdnnfVerif.Model.Query
 import DdnnfVerif.Model.WFCheck
 import DdnnfVerif.Model.Features
 import DdnnfVerif.Model.Enum
+import DdnnfVerif.Proofs.PDLeaf
 namespace Ddnnf
 
 def fmtInts (xs : List Int) : String := " ".intercalate (xs.map toString)
@@ -20,7 +21,10 @@ def fmtCfgs (cs : List Config) : String := ";".intercalate (cs.map (fun c => fmt
 def parseIntsD (ws : List String) : List Int := ws.filterMap String.toInt?
 
 def circuitLine (nodes : List NType) (n : Nat) : String :=
-  let wf := if n ≤ 12 then toString (wfB nodes n) else (if structB nodes n then "struct" else "false")
+  -- hypotheses of the theorems: WF (wfB_sound) and LitUnique (litUniqueB_sound); the truth-table part of
+  -- determinism is only evaluated for n ≤ 12
+  let wf := if n ≤ 12 then toString (wfB nodes n && litUniqueB nodes)
+            else (if structB nodes n && litUniqueB nodes then "struct" else "false")
   s!"circuit nodes={nodes.length} wf={wf} count={count nodes (rootIx nodes)}"
 
 def answer (nodes : List NType) (n : Nat) (kind : String) (args : List String) : String :=
